@@ -444,6 +444,59 @@ def check(ctx):
     if n13 < 4:
         raise AnalysisError('C01.R13 found only %d strftime sites in asn1tools/codecs' % n13)
 
+    # ---- R15: OBJECT IDENTIFIER contents (X.690 8.19, used by BER, DER, PER, UPER and OER alike): first subidentifier 40 * X + Y with X in 0..2 and Y >= 40 only under X = 2,
+    #      every subidentifier in base 128, most significant group first.  encode_object_identifier and decode_object_identifier are evaluated (sa/evalexpr.py) on a grid of
+    #      identifiers against octets computed here, and against each other.
+    ctx.rule('C01.R15', 'OBJECT IDENTIFIER: encoder and decoder of the contents octets evaluated on boundary identifiers against X.690 8.19 and as inverses of each other')
+    from .. import evalexpr as _ev15
+    bm = model.mod('asn1tools/codecs/ber.py')
+    eo, do = bm.functions.get('encode_object_identifier'), bm.functions.get('decode_object_identifier')
+    if eo is None or do is None:
+        raise AnalysisError('ber.encode_object_identifier / decode_object_identifier vanished')
+
+    def b128(v_):
+        out_ = [v_ & 0x7f]
+        v_ >>= 7
+        while v_:
+            out_.insert(0, 0x80 | (v_ & 0x7f))
+            v_ >>= 7
+        return out_
+    oids = ['0.0', '0.39', '1.0', '1.39.3', '2.0', '2.39.1', '2.40.5', '2.47', '2.48.1', '2.100', '2.999.1', '2.999', '1.2.840.113549.1.1.11', '2.5.4.3', '0.9.2342.19200300.100.1.25',
+            '2.16.840.1.101.3.4.2.1', '1.3.6.1.4.1.311.21.20', '2.127.128.16383.16384.2097151.2097152', '1.2.0.0.127.128', '2.4294967296.1']
+    n_ok = n_und = 0
+    bad = None
+    und = ''
+    ep_, dp_ = flow.param_names(eo), flow.param_names(do)
+    for oid in oids:
+        arcs = [int(x_) for x_ in oid.split('.')]
+        ref = b128(40 * arcs[0] + arcs[1])
+        for a_ in arcs[2:]:
+            ref += b128(a_)
+        try:
+            got_e, _e = _ev15.run_function(eo, {ep_[0]: oid})
+            got_e = list(got_e)
+            got_d, _e = _ev15.run_function(do, {dp_[0]: bytearray(ref), dp_[1]: 0, dp_[2]: len(ref)})
+        except (_ev15.Unsupported, _ev15.Raised) as e_:
+            n_und += 1
+            und = und or '%s: %s' % (oid, str(e_)[:70])
+            continue
+        if got_e != ref:
+            bad = bad or ('encode', oid, bytes(got_e).hex() if all(isinstance(x_, int) and 0 <= x_ < 256 for x_ in got_e) else got_e, bytes(ref).hex())
+        elif got_d != oid:
+            bad = bad or ('decode', oid, got_d, bytes(ref).hex())
+        else:
+            n_ok += 1
+    ctx.instance('C01.R15', 'ber.encode_object_identifier / decode_object_identifier on %d identifiers (%d undecided)' % (n_ok + (1 if bad else 0), n_und),
+                 'VIOLATION' if bad else ('ok' if n_ok > n_und else 'undecided'), und, nontrivial=n_ok > n_und, node=do, file=bm.rel)
+    if bad:
+        which, oid, got, refhex = bad
+        if which == 'encode':
+            ctx.violation('C01.R15', bm.rel, eo, Model.qual(eo), 'OBJECT IDENTIFIER %s is encoded as %s, X.690 8.19 gives %s: the value does not round-trip and other implementations read another identifier'
+                          % (oid, got, refhex), stmt='object identifier contents (encode)')
+        else:
+            ctx.violation('C01.R15', bm.rel, do, Model.qual(do), 'the contents octets %s of OBJECT IDENTIFIER %s are decoded as %s: the first subidentifier is 40 * X + Y with X at most 2, so every '
+                          'identifier under 2.40 and above (2.999.1) comes back as another value in BER, DER, PER, UPER and OER' % (refhex, oid, got), stmt='object identifier contents (decode)')
+
     # ---- R14: the decoders of the known-multiplier strings rebuild the octets of each character for <bytes>.decode(ENCODING).  How many octets a character has is a matter of
     #      the encoding (two for BMPString), not of the bits it takes on the wire: a permitted alphabet narrows the field, not the character.  Every decode method of the
     #      family therefore converts with the same width, the one derived from the unconstrained alphabet.
@@ -479,6 +532,11 @@ def check(ctx):
 
 
 MUTANTS = [
+    dict(name='first OID subidentifier always split with divmod 40', file='asn1tools/codecs/ber.py',
+         old="""    if subidentifier < 80:
+        decoded = [subidentifier // 40, subidentifier % 40]
+    else:
+        decoded = [2, subidentifier - 80]""", new="""    decoded = [subidentifier // 40, subidentifier % 40]""", expect='C01.R15'),
     dict(name='bounded string decode rebuilds characters with the width of the field', file=UPER,
          old="""            data += to_byte_array(value, orig_bits_per_character)""", new="""            data += to_byte_array(value, self.bits_per_character)""", expect='C01.R14'),
     dict(name='restricted generalized time year through strftime', file='asn1tools/codecs/__init__.py',
